@@ -7,6 +7,7 @@ typedef struct error_context_s {
     control_stack_t *save_csp;
     object_t *save_command_giver; 
     svalue_t *save_sp;
+    int save_num_varargs; /* pending '...' expansions of the argument list being built */
     struct error_context_s *save_context;
 } error_context_t;
 
